@@ -62,6 +62,22 @@ class Ctx:
                            where, witness)
         return bool(cond)
 
+    def undecided(self, rule, construct, why=''):
+        """The construct is there but its shape is not one the rule
+        understands: neither discharged nor a violation (no positive evidence
+        of a defect).  Counted and listed in the evidence."""
+        self.obligations.append({'rule': rule, 'construct': construct,
+                                 'verdict': 'undecided', 'detail': why})
+
+    def shape(self, cond, rule, construct, detail_ok='', why=''):
+        """A recognised-good shape discharges; anything else is undecided
+        (use check()/violation() only for positive evidence of a defect)."""
+        if cond:
+            self.ok(rule, construct, detail_ok)
+        else:
+            self.undecided(rule, construct, why or 'shape not recognised')
+        return bool(cond)
+
     def floor(self, what, found, minimum):
         """Anchor floor: fewer instances than confirmed by hand means the
         analysis lost its anchors (exit 2), never a pass."""
@@ -159,6 +175,13 @@ def run_property(prop, check_fn, meta, repo_root=REPO_DEFAULT, tier='quick',
                     n_new=len(new), n_known=len(matched))
     if not quiet:
         n_ok = sum(1 for o in ctx.obligations if o['verdict'] == 'ok')
+        n_und = sum(1 for o in ctx.obligations if o['verdict'] == 'undecided')
+        if n_und:
+            print(f"{prop}: {n_und} rule instance(s) undecided (construct present, shape not recognised; "
+                  f"no positive evidence of a defect):")
+            for o in ctx.obligations:
+                if o['verdict'] == 'undecided':
+                    print(f"  undecided {o['rule']} {o['construct']}: {o['detail'][:120]}")
         print(f"{prop}: {len(ctx.obligations)} obligations, {n_ok} discharged, "
               f"{len(matched)} known findings, {len(new)} violations "
               f"[{tier}, {time.time() - t0:.2f}s, "
@@ -195,6 +218,7 @@ def _write_evidence(path, prop, tier, seed, meta, ctx, t0, error=None,
                  "exit 2)"),
         'obligations': len(obligations),
         'discharged': n_ok,
+        'undecided': sum(1 for o in obligations if o['verdict'] == 'undecided'),
         'known_findings': n_known,
         'samples': samples or [{'note': 'no obligation evaluated'}],
         'exhaustive': True,
